@@ -23,7 +23,7 @@ class _Sheet:
 class _Cell:
     def __init__(self, parent, v, row, col):
         self.parent = parent
-        self.value = None if v == '' else v
+        self.value = None if v == '' else (0 if v == '0' else v)      # '0' = the number 0
         self.coordinate = '%s%d' % ('ABCDEF'[col], row)
 
     def __repr__(self):
@@ -129,7 +129,7 @@ def _cfg(maxrows, emit):
 def run(ctx):
     ctx.assumptions += ['rule set: key attribute Id, Name, optional Opt with default, one external attribute, one '
                         'ranged dict attribute; 8 column layouts (order, blank-titled, unknown, separated unknown '
-                        'columns); cell values blank/a/b; distinct titles',
+                        'columns); cell values blank / a / b / the number 0; distinct titles',
                         'ladder equivalence is stated for the "blank all" end rule (a blank first cell ends a '
                         '"blank first" table before any fill-down)']
     r = ctx.tlc('xls/XlsRead.tla', _cfg(1 if ctx.quick else 2, True), workers=16, timeout=7200, heap='16g')
